@@ -272,7 +272,7 @@ def parse_stmt(l):
     assert rhs.endswith(';'), l
     rhs = rhs[:-1]
     # call?  "callee(args) -> [return: bbN, unwind ...]"
-    m = re.search(r'\) -> (\[.*\]|unwind .*)$', rhs)
+    m = re.search(r'\) -> (\[.*\]|unwind .*|bb\d+)$', rhs)
     if m:
         callpart = rhs[:m.start() + 1]
         tg = parse_targets(m.group(1)) if m.group(1).startswith('[') else {}
